@@ -23,6 +23,16 @@ REVIEWED = {
      "old_ax_len_product != new_ax_len_product"): _RESHAPE,
     ("transform.lower_to_index_lambda._get_reshaped_indices",
      "old_ax_len_product != new_ax_len_product#2"): _RESHAPE,
+    ("transform.lower_to_index_lambda._generate_index_expressions",
+     "new_shape == (1,)"): _RESHAPE,
+    ("transform.lower_to_index_lambda._get_reshaped_indices",
+     "old_ax_len_product == 1"): _RESHAPE,
+    ("transform.lower_to_index_lambda._get_reshaped_indices",
+     "new_ax_len_product == 1"): _RESHAPE,
+    ("transform.lower_to_index_lambda._get_reshaped_indices",
+     "old_shape[old_index] == 1"): _RESHAPE,
+    ("transform.lower_to_index_lambda._get_reshaped_indices",
+     "new_shape[new_index] == 1"): _RESHAPE,
 }
 # matched on alpha-normalised text (local renames do not matter); one entry
 # exempts one comparison
@@ -118,6 +128,14 @@ def _literal(n):
     return False
 
 
+def _empty_tuple(n):
+    """`()`: comparing a shape with it tests the rank only.  Any other literal
+    (1, (1,), 0) is a statement about a component's VALUE, and a symbolic
+    component can have that value for every valuation without being that
+    literal structurally (n - n + 1)"""
+    return isinstance(n, ast.Tuple) and not n.elts
+
+
 def _int_proven(cmp_, names):
     """a dominating isinstance(<name>, INT_CLASSES / int) test on both operands"""
     need = set(names)
@@ -172,9 +190,9 @@ def r_route(c):
                 if fd.name in ROUTERS:
                     c.ok("R16-ROUTE", qn, inst, where, "inside the decision procedure",
                          nontrivial=False)
-                elif _literal(l) or _literal(r):
+                elif _empty_tuple(l) or _empty_tuple(r):
                     c.ok("R16-ROUTE", qn, inst, where,
-                         "compared with a literal (structural comparison is exact)")
+                         "compared with () : a test of the rank, exact for any shape")
                 elif _int_proven(n, [ast.unparse(l), ast.unparse(r)]):
                     c.ok("R16-ROUTE", qn, inst, where, "both operands proven integers")
                 elif used_rev[(qn, _alpha(inst))] < len(_REVIEWED_N.get((qn, _alpha(inst)), [])):
@@ -354,10 +372,18 @@ def r_broadcast(c):
         raise AnalysisError(f"only {n} broadcast decision trees found (floor 2)")
 
 
+def r_state(c):
+    """the decision procedure is a function of its two arguments only"""
+    from pta.rules.common import check_no_shared_state
+    check_no_shared_state(
+        c, "R16-STATE", ["pytato.utils"],
+        "the verdict on two shape components depends on earlier verdicts (a memo keyed by "
+        "id() answers for dead objects whose address was reused)", floor_funcs=20)
+
 SPEC = Spec(
     prop="C16",
-    rules=[r_route, r_decision, r_bindnames, r_broadcast],
-    floors={"R16-ROUTE": 12, "R16-DECISION": 13, "R16-BINDNAMES": 3, "R16-BROADCAST": 8},
+    rules=[r_route, r_decision, r_bindnames, r_broadcast, r_state],
+    floors={"R16-ROUTE": 12, "R16-DECISION": 13, "R16-BINDNAMES": 3, "R16-BROADCAST": 8, "R16-STATE": 1},
     explanation=(
         "R16-ROUTE (who-may-compare): local shape typing (X.shape / newshape, "
         "subscripts and slices of it, variables assigned from it, parameters and "
